@@ -186,6 +186,17 @@ func runC17(r *core.Run) {
 			}
 		}
 	}
+	// dictionary capacities that are not powers of two, |X| = DictCap (index arithmetic of the match
+	// finders' rings must not assume a power of two)
+	for _, dc := range []int{98304, 100000, 5 << 20, 7 << 20} {
+		for m := 0; m < 2; m++ {
+			if m == 1 && dc > 100000 {
+				continue // BinaryTree cost bound
+			}
+			cases = append(cases, C17Case{Family: "xx", API: "xz", Seed: 30, N: dc, DictCap: dc, Matcher: m, Props: def})
+			cases = append(cases, C17Case{Family: "xx", API: "lzma2", Seed: 31, N: dc - dc/3, DictCap: dc, Matcher: m, Props: def})
+		}
+	}
 	// X‖X across the 2 MiB uncompressed chunk limit (the chunk ends inside the second copy)
 	for s := 0; s < 2; s++ {
 		for m := 0; m < 2; m++ {
